@@ -13,6 +13,6 @@ Separate Extraction
   Perft.perft Perft.perft_tactical Perft.perft_divide Perft.tperft_divide
   Fen.parse_fen
   Uci.parse_move Uci.move_string Uci.apply_uci Uci.do_position Uci.parse_go Uci.go_defaults Uci.allotted_ns Uci.millis_for_move
-  Search.iterate Search.minimax Search.root_search
-  Abs.spec_legal_codes Abs.spec_tactical_codes Abs.spec_in_check Abs.spec_attacked Abs.spec_legal_position Abs.make_refines Abs.is_mirror_of
+  Search.iterate Search.minimax Search.minimax_s Search.root_search
+  Abs.spec_legal_codes Abs.spec_tactical_codes Abs.spec_in_check Abs.spec_attacked Abs.spec_legal_position Abs.make_refines Abs.is_mirror_of Abs.att_case Abs.spec_mate_score Abs.line_legal Abs.model_mate_score
   WF.wf WF.wf_legal MakeSpec.make_spec_check.
